@@ -889,6 +889,29 @@ func (d *c17Daemon) checkTables(id, after string) bool {
 		d.fail("C17:strategy-effect-wrong", id, "after "+after+" the strategy table differs from what the accepted commands describe", map[string]any{"strategies": gotS, "expected": d.strat})
 		return false
 	}
+	// what forwarding will actually use: longest-prefix lookups below and at the command prefixes
+	wantAll := map[string]string{}
+	for k, v := range wantF {
+		wantAll[k] = v
+	}
+	for k, v := range wantR {
+		wantAll[k] = v
+	}
+	for _, ps := range []string{"/r/a", "/r/a/b", "/r/a/b/q", "/r/a/q", "/r/c", "/r/c/q/q", "/f/x", "/f/x/y", "/f/x/y/q", "/f/x/q", "/r", "/f"} {
+		pn, _ := enc.NameFromStr(ps)
+		want := ""
+		for l := len(pn); l >= 0; l-- {
+			if v, ok := wantAll[pn[:l].String()]; ok {
+				want = v
+				break
+			}
+		}
+		hm, _ := copyHops(table.FibStrategyTable.FindNextHopsEnc(pn))
+		if got := hopsStr(hm); got != want && !(len(hm) == 0 && want == "") {
+			d.fail("C17:lookup-after-commands-wrong", id, fmt.Sprintf("after %s FindNextHops(%s) = %s, the accepted commands describe %s (longest prefix with next hops)", after, ps, got, want), map[string]any{"expected_fib": wantAll, "strategies": gotS})
+			return false
+		}
+	}
 	if table.CsCapacity() != d.capacity {
 		d.fail("C17:cs-capacity-wrong", id, fmt.Sprintf("CS capacity is %d, the accepted commands set %d", table.CsCapacity(), d.capacity), nil)
 		return false
